@@ -78,6 +78,8 @@ def rule_stride(ctx):
         if n == "jump_label_fixed":
             events.append(args[0])
             return Adt(None, None, {})
+        if n == "label" and t.get("callee_trait") == "axcut2backend::code::Instructions":
+            return Adt("LABELDEF", "label", {"0": args[0]})     # a label definition occupies no bytes: the stride is unaffected
         if n == "print_to_string":
             v = I.deref(args[0])
             return interp.StrCat([Sym("xtor:%s" % (v.fields.get("name") if isinstance(v, Adt) else v,))]) if True else NotImplemented
@@ -90,7 +92,8 @@ def rule_stride(ctx):
     outs = I.run(f, [clauses, "T", out_vec])
     names = [repr(e) for e in events]
     ikey = "code_table:one-entry-per-clause"
-    ok = len(events) == 4 and all(("K%d" % i) in names[i] for i in range(4)) and not out_vec.items
+    ok = len(events) == 4 and all(("K%d" % i) in names[i] for i in range(4)) and \
+        all(isinstance(x, Adt) and x.path == "LABELDEF" for x in out_vec.items)
     if ok:
         res.inst(ikey, f["sp"]["file"], f["sp"]["line"], "ok", "4 clauses -> 4 fixed jumps in clause order")
     else:
